@@ -1,4 +1,5 @@
 import O2P.Model.Jq
+import O2P.Lemmas.JqSem
 /-!
 # C13 — field-mapping extraction follows the documented path semantics
 Theorems about the extraction model `O2P.Jq` (the behaviour of the compiled mapping):
@@ -174,5 +175,49 @@ example :
       [[("event_id", "s1"), ("job_name", "G"), ("event_type", "G_GET")],
        [("event_id", "s2"), ("job_name", "G"), ("event_type", "null")]] := by
   decide
+
+/-! ### the emitted jq query means the extraction model -/
+
+/-- **C13 compile_correct**: evaluated with the semantics of jq (`O2P.Jq.eval`: generators, error
+propagation, `try`/`catch`, `//`, `select`, dynamic object keys, `add`, `flatten`, `join`, `any`/`all`), the
+query `jq_field_mapping_to_jq_query` emits for a well-formed program yields, without error and in order,
+exactly the records of the extraction model — for every document. -/
+theorem compile_correct (p : Program) (doc : Json) (h : wfProgram p = true) :
+    runQuery (emitProgram p) doc = .ok ((extract p doc).map Json.obj) := by
+  simp only [wfProgram, Bool.and_eq_true] at h
+  obtain ⟨ho, hf⟩ := h
+  have hwf := wfFields_of_B _ _ hf
+  unfold runQuery emitProgram
+  rw [eval_bind, eval_id, bindRes_single]
+  have hbody : ∀ env' : List Json, env'.length = p.order.length + 1 →
+      eval (emitFields (p.order.length + 1) p.fields []) env' doc =
+        .ok [(fun e => Json.obj (p.fields.map fun f => (f.1, evalField e f.2))) env'] := by
+    intro env' hl
+    have := eval_emitFields doc env' p.fields [] [] [] (by rw [hl]; exact hwf) rfl
+    simp only [List.append_nil, hl, List.nil_append] at this
+    exact this
+  rw [eval_emitLoops doc _ _ (p.order.length + 1) hbody p.order ([] ++ [doc]) (by simp; omega) (by simpa using ho)]
+  congr 1
+  simp only [extract, bindings, List.map_map, List.nil_append]
+  rfl
+
+/-- non-vacuity: a two-level mapping (resource → spans) with a header lookup, a `_` join with a fall-back
+and an array-valued field is well-formed, and its query yields the two records of a small document -/
+example :
+    let p : Program := {
+      order := [(0, ["resource_spans"]), (1, ["spans"])],
+      fields := [
+        ("job_name", { parts := [[.lookup 1 ["resource", "attributes"] ["key"] ["value"] "service.name"],
+                                 [.plain 2 ["kind"], .plain 2 ["name"]]], isArray := false }),
+        ("child_event_ids", { parts := [[.plain 2 ["children"]]], isArray := true })] }
+    let doc : Json := .obj [("resource_spans", .arr [.obj [
+      ("resource", .obj [("attributes", .arr [.obj [("key", .str "service.name"), ("value", .str "shop")]])]),
+      ("spans", .arr [.obj [("name", .str "pay"), ("children", .arr [.str "c1", .str "c2"])],
+                      .obj [("kind", .str "rpc"), ("name", .str "ship")]])]])]
+    wfProgram p = true ∧ (runQuery (emitProgram p) doc).err = false ∧
+    beqL (runQuery (emitProgram p) doc).outs [
+      .obj [("job_name", .str "shop_pay"), ("child_event_ids", .arr [.str "c1", .str "c2"])],
+      .obj [("job_name", .str "shop_rpc"), ("child_event_ids", .null)]] = true := by
+  decide +kernel
 
 end O2P.Jq
